@@ -1,6 +1,7 @@
 (* C13 - redefining the objective on the fly acts as a restart on the new objective.
    Restates Proofs/DriverInert.ident_run, Proofs/DriverFilter.filter_spec and accept_step_upd_shape. *)
-From Coq Require Import List ZArith Bool String Floats.PrimFloat.
+From LBFGSB Require Generated.FilterGen Generated.BfgsMem.
+From Coq Require Import List ZArith Bool String Lia Floats.PrimFloat.
 From LBFGSB Require Import Base.Res Base.Sim Model.SF Model.FloatVec Model.Driver Generated.Memory Generated.StopTests
   Proofs.DriverMemory Proofs.DriverInert Proofs.DriverFilter.
 Import ListNotations.
@@ -55,6 +56,55 @@ Proof. reflexivity. Qed.
    holding the rewritten history" - it relates the state after update + filter + memory update with what initialize_X_and_G
    rebuilds from differences, which is exact only in exact arithmetic, and it needs the matrices to be rebuilt even when the
    newest pair is rejected (is_force_update=False keeps the old ones: Q1 of DESIGN.md).  It is explored by the search. *)
+
+(* TRANSLATION TIE: the curvature filter bfgsmats.make_X_and_G_respect_strong_wolfe - the backwards walk
+     for i in range(ncor): k = ncor - i - 1; if not is_update_X_and_G(X[k], G[k], _X[0], _G[0], eps): (drop) else: appendleft
+   which tests every stored point against the OLDEST POINT KEPT SO FAR (not against its original neighbour) - is translated from the
+   source on every run (Generated/FilterGen.v; logging statements ignored) and IS the model's filter_mem. *)
+Lemma curv_src : forall (K : kern) (c : cfg) xk gk xo go,
+  BfgsMem.is_update_X_and_G (vdot K) xk gk xo go (eps_sy c) = curvature_ok K c xk gk xo go.
+Proof. intros. unfold BfgsMem.is_update_X_and_G, curvature_ok. destruct (ltb _ _); reflexivity. Qed.
+
+Section FilterTranslated.
+  Variable K : kern.
+  Variable c : cfg.
+  Variables X G : list vec.
+  Notation walk := (FilterGen.walk (vdot K) (eps_sy c) X G).
+  Notation ncor := (FilterGen.ncor X).
+
+  Lemma walk_filter_back : forall (rX rG : list vec) (i : nat) (aX aG : list vec),
+    List.length rG = List.length rX ->
+    (forall j, (j < List.length rX)%nat -> List.nth (ncor - (i + j) - 1) X [] = List.nth j rX [] /\ List.nth (ncor - (i + j) - 1) G [] = List.nth j rG []) ->
+    walk (List.length rX) i aX aG = filter_back K c rX rG aX aG.
+  Proof.
+    induction rX as [|xk rX IH]; intros rG i aX aG HL H; destruct rG as [|gk rG]; try discriminate; [reflexivity|].
+    cbn [List.length FilterGen.walk filter_back]. destruct (H 0%nat ltac:(cbn; lia)) as [Hx Hg]. rewrite Nat.add_0_r in Hx, Hg. cbn [List.nth] in Hx, Hg.
+    rewrite Hx, Hg. rewrite (curv_src K c xk gk (List.hd [] aX) (List.hd [] aG)).
+    injection HL as HL.
+    assert (H' : forall j, (j < List.length rX)%nat -> List.nth (ncor - (S i + j) - 1) X [] = List.nth j rX [] /\ List.nth (ncor - (S i + j) - 1) G [] = List.nth j rG []).
+    { intros j Hj. specialize (H (S j) ltac:(cbn; lia)). cbn [List.nth] in H. replace (S i + j)%nat with (i + S j)%nat by lia. exact H. }
+    destruct (curvature_ok K c xk gk (List.hd [] aX) (List.hd [] aG)); cbn [negb]; apply IH; assumption.
+  Qed.
+End FilterTranslated.
+
+Theorem C13_filter_translated : forall (K : kern) (c : cfg) (X G : list vec), X <> [] -> List.length G = List.length X ->
+  FilterGen.make_X_and_G_respect_strong_wolfe (vdot K) (eps_sy c) X G = filter_mem K c X G.
+Proof.
+  intros K c X G HX HL.
+  destruct (exists_last HX) as (P & xl & ->).
+  assert (HG : G <> []) by (destruct G; [rewrite app_length in HL; cbn in HL; lia|discriminate]).
+  destruct (exists_last HG) as (Q & gl & ->).
+  rewrite !app_length in HL. cbn [List.length] in HL. assert (HPQ : List.length Q = List.length P) by lia.
+  unfold FilterGen.make_X_and_G_respect_strong_wolfe, filter_mem. rewrite !rev_app_distr. cbn [rev app].
+  rewrite !last_last.
+  assert (Hn : FilterGen.ncor (P ++ [xl]) = List.length (rev P)) by (unfold FilterGen.ncor; rewrite app_length, rev_length; cbn; lia).
+  rewrite Hn. apply walk_filter_back; [rewrite !rev_length; exact HPQ|].
+  intros j Hj. rewrite rev_length in Hj. unfold FilterGen.ncor. rewrite !app_length. cbn [List.length Nat.add].
+  cbn [Nat.add]. replace (List.length P + 1 - 1 - j - 1)%nat with (List.length P - S j)%nat by lia.
+  split.
+  - rewrite app_nth1 by lia. rewrite rev_nth by lia. reflexivity.
+  - rewrite app_nth1 by lia. rewrite rev_nth by lia. rewrite HPQ. reflexivity.
+Qed.
 
 Print Assumptions C13_identity.
 Print Assumptions C13_filter_spec.
